@@ -398,3 +398,78 @@ _units_base2 = units
 
 def units(world):  # noqa: F811
     return _units_base2(world) + gen_units(world)
+
+
+# ---------------------------------------------------------------------------------------------
+# C14(3): the emission block of _ctparse keeps the table "value -> best score emitted so far"
+def emission_units(world):
+    from pyvc.values import SymMap, ModVal
+
+    def find_emit_loop(fnode):
+        for n in ast.walk(fnode):
+            if isinstance(n, ast.For) and any(isinstance(y, ast.Yield) for y in ast.walk(n)):
+                inner = [m for m in ast.walk(n) if isinstance(m, ast.For) and m is not n and any(isinstance(y, ast.Yield) for y in ast.walk(m))]
+                if not inner:
+                    return n
+        return None
+
+    def mk(is_regex):
+        def setup(it, w):
+            x = Obj(w.classes["RegexMatch" if is_regex else "Time"], fresh=False, label="x")
+            return [x, SymMap("parse_prod"), z3.Real("score_x")]
+
+        def call(it, w, a):
+            x, E, sx = a
+            f = w.func("ctparse._ctparse")
+            loop = find_emit_loop(f.node)
+            if loop is None:
+                raise Unsupported("emission loop (for ... in s.prod containing the yield) not found")
+            fr = Frame(f, None)
+            fr.yielded = []
+            s = Obj(w.classes["PartialParse"], fresh=False, label="s")
+            s.attrs["prod"] = (x,)
+            s.attrs["rules"] = Tok("s.rules")
+            calls = []
+
+            def score_final(it2, args, k):
+                calls.append(tuple(args))
+                return sx
+            fr.vars.update({"s": s, "txt": Tok("txt"), "ts": Tok("ts"), "subject": Tok("subject"), "labels": Tok("labels"),
+                            "parse_prod": E, "scorer": ModVal("scorer", {"score_final": Builtin("score_final", score_final)})})
+            it.exec(loop, fr)
+            return (fr.yielded, calls, fr)
+
+        def ens(it, w, a, r):
+            x, E, sx = a
+            yielded, calls, fr = r
+            kx = E.key(x)
+            out = []
+            if is_regex:
+                out.append(("pattern-matches-are-not-emitted", ["C14", "C15"], len(yielded) == 0 and E.dom is E.dom0 and E.val is E.val0))
+                return out
+            better = z3.Or(z3.Not(z3.Select(E.dom0, kx)), z3.Select(E.val0, kx) < sx)
+            emitted = len(yielded) == 1
+            out.append(("emitted-iff-new-or-strictly-better", ["C14"], better if emitted else z3.Not(better)))
+            if emitted:
+                out.append(("table-records-the-emitted-score", ["C14"],
+                            z3.And(E.dom == z3.Store(E.dom0, kx, z3.BoolVal(True)), E.val == z3.Store(E.val0, kx, sx))))
+                y = yielded[0]
+                ok = isinstance(y, Obj) and y.cls.name == "CTParse"
+                out.append(("candidate-carries-value-trace-score-subject-labels", ["C14", "C10", "C15"],
+                            ok and y.attrs.get("resolution") is x and getattr(y.attrs.get("production"), "name", None) == "s.rules"
+                            and y.attrs.get("score") is sx and getattr(y.attrs.get("subject"), "name", None) == "subject"
+                            and getattr(y.attrs.get("labels"), "name", None) == "labels"))
+                out.append(("final-score-of-this-value", ["C14"], len(calls) == 1 and calls[0][3] is x and getattr(calls[0][2], "label", None) == "s"))
+            else:
+                out.append(("table-unchanged-when-nothing-is-emitted", ["C14"], z3.And(E.dom == E.dom0, E.val == E.val0)))
+            return out
+        return FuncUnit("ctparse._ctparse.emission[%s]" % ("RegexMatch" if is_regex else "value"), ["ctparse._ctparse"],
+                        ["C14", "C10", "C15"], setup, call, ens, check_frame=False, prop_map={"safety": ["C14"]})
+    return [mk(False), mk(True)]
+
+
+_units_base3 = units
+
+
+def units(world):  # noqa: F811
+    return _units_base3(world) + emission_units(world)
